@@ -133,6 +133,56 @@ fn stream<T: Hash + ?Sized>(t: &T) -> Vec<u8> {
     h.0
 }
 
+/// "If the impl exists it must see through the pointer": autoref probes for traits a handle kind does not
+/// implement today (Hash / PartialOrd on OffsetArc, ArcBorrow, ArcUnion). An impl that appears later is
+/// compared with the value's own; equal handles must hash equally in any case.
+pub struct OptW<'a, T: ?Sized>(pub &'a T);
+pub trait NoHashImpl {
+    fn opt_stream(&self) -> Option<Vec<u8>> {
+        None
+    }
+}
+impl<'a, T: ?Sized> NoHashImpl for &OptW<'a, T> {}
+impl<'a, T: ?Sized + Hash> OptW<'a, T> {
+    pub fn opt_stream(&self) -> Option<Vec<u8>> {
+        Some(stream(self.0))
+    }
+}
+pub trait NoPartialOrdImpl<T: ?Sized> {
+    fn opt_pcmp(&self, _o: &T) -> Option<Option<Ordering>> {
+        None
+    }
+}
+impl<'a, T: ?Sized> NoPartialOrdImpl<T> for &OptW<'a, T> {}
+impl<'a, T: ?Sized + PartialOrd> OptW<'a, T> {
+    pub fn opt_pcmp(&self, o: &T) -> Option<Option<Ordering>> {
+        Some(self.0.partial_cmp(o))
+    }
+}
+
+macro_rules! opt_checks {
+    ($o:expr, $a:expr, $b:expr, $eq:expr, $val_a:expr, $val_b:expr) => {{
+        let (ha, hb) = ((&OptW(&$a)).opt_stream(), (&OptW(&$b)).opt_stream());
+        if let (Some(ha), Some(hb)) = (&ha, &hb) {
+            if $eq && ha != hb {
+                $o.fail("hash-of-equal", "the handle type implements Hash, and two handles that compare equal hash differently".to_string());
+            }
+            if let Some(hv) = (&OptW(&$val_a)).opt_stream() {
+                if *ha != hv {
+                    $o.fail("hash", format!("the handle type implements Hash and feeds the hasher {:?} but the value feeds {:?}", ha, hv));
+                }
+            }
+        }
+        if let Some(pc) = (&OptW(&$a)).opt_pcmp(&$b) {
+            if let Some(pv) = (&OptW(&$val_a)).opt_pcmp(&$val_b) {
+                if pc != pv {
+                    $o.fail("partial_cmp", format!("the handle type implements PartialOrd: handles give {:?}, values give {:?}", pc, pv));
+                }
+            }
+        }
+    }};
+}
+
 pub struct Decoded<E: Elem> {
     pub kind: usize,
     pub x: Val<E>,
@@ -387,10 +437,11 @@ macro_rules! class_impl {
                     5 => {
                         let a = Arc::into_raw_offset(Arc::new(tx.clone()));
                         let b = if same_ok { a.clone() } else { Arc::into_raw_offset(Arc::new(ty.clone())) };
-                        let _ = check_eq!(o, a, b, eq_t, lic, format!("{:?}", tx));
+                        let eq5 = check_eq!(o, a, b, eq_t, lic, format!("{:?}", tx));
                         if dbgs(&a) != dbgs(&tx) {
                             o.fail("Debug-spec", format!("{:?} vs {:?}", dbgs(&a), dbgs(&tx)));
                         }
+                        opt_checks!(o, a, b, eq5, tx, ty);
                     }
                     6 => {
                         let aa = Arc::new(tx.clone());
@@ -398,10 +449,11 @@ macro_rules! class_impl {
                         let (a, b) = (aa.borrow_arc(), bb.borrow_arc());
                         let class = if !same_ok && eq_t { "equal-values-distinct-allocations" } else if same_ok { "same-allocation" } else { "different-values" };
                         let o2 = Obs { kind: o.kind, class: class.to_string() };
-                        let _ = check_eq!(&o2, a, b, eq_t, lic, format!("{:?}", tx));
+                        let eq6 = check_eq!(&o2, a, b, eq_t, lic, format!("{:?}", tx));
                         if dbgs(&a) != dbgs(&tx) {
                             Obs { kind: o.kind, class: "any".into() }.fail("Debug-spec", format!("{:?} vs {:?}", dbgs(&a), dbgs(&tx)));
                         }
+                        opt_checks!(&o2, a, b, eq6, tx, ty);
                     }
                     7 => {
                         type U<E> = ArcUnion<T2<E>, Vec<E>>;
@@ -437,6 +489,12 @@ macro_rules! class_impl {
                         let g = dbgs(&a);
                         if g != rv && g != re {
                             Obs { kind: o.kind, class: "any".into() }.fail("Debug-spec", format!("union formats as {:?}; expected {:?} or {:?}", g, rv, re));
+                        }
+                        // a Hash impl that appears must at least hash equal unions equally
+                        if let (Some(ha), Some(hb)) = ((&OptW(&a)).opt_stream(), (&OptW(&b)).opt_stream()) {
+                            if eq && ha != hb {
+                                o2.fail("hash-of-equal", "ArcUnion implements Hash, and two unions that compare equal hash differently".to_string());
+                            }
                         }
                     }
                     8 => {
